@@ -4,6 +4,8 @@ CONSTANTS
   Containers = {1, 2, 3, 4, 5, 6}
   Nums = {}
   DevFirstWins = FALSE
+  HdrChoices <- HdrIdentity
+  DevTieByCompletion = FALSE
   DeferU = {}
   DevStopAtFirstFailure = FALSE
   DropU = {}
